@@ -160,7 +160,7 @@ NODE_PROPS = {
  "C15": dict(events=None, tags={"C15"}),
  "C16": dict(events={"LTransfer", "LTimeoutNowResult", "LTransferTimeout", "LNewTermTimeout", "ETimeoutNowReq", "LClient", "LReplUpdate", "LChangeConfig",
                      "EVoteReq", "ETimeout", "EVoteResult"}, tags={"C16"}),  # the target's election (transfer flag in its vote requests) is part of the transfer
- "C17": dict(events={"EVoteReq", "LFlrResp", "LFlrSend", "ETimeout", "LReplUpdate", "LTransferTimeout", "LTimeoutNowResult", "LNewTermTimeout"}, tags={"C17"}),  # a failed transfer must leave the leader able to go on
+ "C17": dict(events={"EVoteReq", "EAppendReq", "EAppendReqCut", "ESnapReq", "ETimeoutNowReq", "LFlrResp", "LFlrSend", "ETimeout", "LReplUpdate", "LTransferTimeout", "LTimeoutNowResult", "LNewTermTimeout"}, tags={"C17"}),  # a failed transfer must leave the leader able to go on
  "C19": dict(events=None, tags={"C19"}),
 }
 
